@@ -97,7 +97,16 @@ def project_syncmgr(st, sites):
     return {"idle": st["idle"], "size": st["size"], "held": sorted(st["held"]), "rec": st["rec"]}
 
 
-PROJECTORS = {"managed": None, "unmanaged": project_unmanaged, "sync": project_sync, "syncmgr": project_syncmgr}
+def harness_cfg_redismgr(c):
+    return {"max_size": c.get("MaxSize", 1)}
+
+
+def project_redismgr(st, sites):
+    return {"idle": st["idle"], "size": st["size"], "held": sorted(st["held"]), "pn": st["pn"],
+            "watching": st["watching"], "lastPings": st["lastPings"]}
+
+
+PROJECTORS = {"redismgr": project_redismgr, "managed": None, "unmanaged": project_unmanaged, "sync": project_sync, "syncmgr": project_syncmgr}
 
 
 def site_map(spec_path):
